@@ -121,7 +121,7 @@ Proof. exact (compile16_never_invalid_flag compiler_checks_view_partition_key co
 
 (* the same for any analyser that has both checks, whether or not it recovers builder panics ... *)
 Theorem no_unbuildable_definition_when_analyser_checks :
-  forall r a, compile16_with r (PChecks true true) a <> VInvalid.
+  forall r a, compile16_with r (PChecks true true true) a <> VInvalid.
 Proof. exact compile16_never_invalid_proved. Qed.
 
 (* ... and is refuted for an analyser that lacks one of the checks - as the shipped one lacked both
@@ -133,13 +133,13 @@ Definition a_view_no_pk : schema := [(Pkg "app1"%string [[(Ws "Ws1"%string false
 Definition a_grant_no_views : schema := [(Pkg "app1"%string [[(Ws "Ws1"%string false [] None [(IRole "R"%string false); (IGrant (Grant false GAllViews (QR ""%string "R"%string)))])]])].
 
 Example unbuildable_definition_refuted_F6 :
-  compile16_with true (PChecks false true) a_view_no_pk = VInvalid /\ wf a_view_no_pk = false
-  /\ compile16_with true (PChecks true false) a_view_no_pk = VError.
+  compile16_with true (PChecks false true true) a_view_no_pk = VInvalid /\ wf a_view_no_pk = false
+  /\ compile16_with true (PChecks true false true) a_view_no_pk = VError.
 Proof. vm_compute. repeat split. Qed.
 
 Example unbuildable_definition_refuted_F7 :
-  compile16_with true (PChecks true false) a_grant_no_views = VInvalid /\ wf a_grant_no_views = false
-  /\ compile16_with true (PChecks false true) a_grant_no_views = VError.
+  compile16_with true (PChecks true false true) a_grant_no_views = VInvalid /\ wf a_grant_no_views = false
+  /\ compile16_with true (PChecks false true true) a_grant_no_views = VError.
 Proof. vm_compute. repeat split. Qed.
 
 (* INHERITS: `wf` is about reachability, not membership.  A well-formed schema's every table reaches a
